@@ -20,6 +20,13 @@ MODES = ["inline", "pool", "fault-inline", "fault-pool"]
 # a healthy run takes < 3 000 scheduling points; a livelock (consumer or join spinning forever) is reported
 # as `VERDICT step-limit` after this many instead of VRT's default 3 000 000
 LIMIT = {"VRT_STEP_LIMIT": "60000"}
+# directed modes: one producer parked between index claim and publish for >= 1200 consumer polls (about 75 000
+# scheduling points with the inline executor)
+STALL_LIMIT = {"VRT_STEP_LIMIT": "600000"}
+
+
+def _env(mode, env):
+    return dict(STALL_LIMIT if mode.startswith("stall") else LIMIT, **env)
 
 
 def warm():
@@ -56,6 +63,8 @@ def _classify(ctx, r, mode, env, lockstep, dist, distinct):
     m = re.search(r"prods=(\d+)", hdr)
     if m:
         dist["producers"][m.group(1)] = dist["producers"].get(m.group(1), 0) + 1
+    if mode.startswith("stall"):
+        dist["stall_polls"] = dist.get("stall_polls", 0) + nrepoll
     if ncasfail > 0 or nref > 0 or nrepoll > 0:
         distinct.add(sha("\n".join(l for l in lines if " ev stats" not in l)))
     text = "mode=%s seed=%d env=%s\n%s\n%s" % (mode, r["seed"], env, hdr, "\n".join(lines[-600:]))
@@ -119,13 +128,16 @@ def run(ctx):
     samples = []
     # fixed interesting cases first
     for mode, seed, env in _corpus():
-        for r in ctx.econc(exe, drv, [mode], seed, 1, env=dict(LIMIT, **env)):
+        for r in ctx.econc(exe, drv, [mode], seed, 1, env=_env(mode, env)):
             dist["modes"]["corpus"] = dist["modes"].get("corpus", 0) + 1
             _classify(ctx, r, mode, env, True, dist, distinct)
-    plan = [(m, n, {}) for m in MODES] + [("inline", n // 2, {"VRT_STRATEGY": "pct"}), ("fault-pool", n // 2, {"VRT_STRATEGY": "pct"}),
+    nst = 4 if ctx.quick else 40
+    if ctx.broken:
+        nst *= 3
+    plan = [("stall-inline", nst, {}), ("stall-pool", nst, {})] + [(m, n, {}) for m in MODES] + [("inline", n // 2, {"VRT_STRATEGY": "pct"}), ("fault-pool", n // 2, {"VRT_STRATEGY": "pct"}),
                                           ("fault-inline", n // 2, {"VRT_STICK": "0"})]
     for mode, cnt, env in plan:
-        runs = ctx.econc(exe, drv, [mode], seed0, cnt, env=dict(LIMIT, **env))
+        runs = ctx.econc(exe, drv, [mode], seed0, cnt, env=_env(mode, env))
         dist["modes"][mode + ("/" + ",".join("%s=%s" % kv for kv in env.items()) if env else "")] = len(runs)
         for r in runs:
             _classify(ctx, r, mode, env, True, dist, distinct)
@@ -137,7 +149,9 @@ def run(ctx):
     ctx.cov["rule"] = ("one case = one seeded configuration (1-3 producers each running 1-4 calls drawn from execute 70% / bare signal_push_event 10% / join 20%, "
                        "capacity hint 1-4 (real capacity 1, 2 or 4), optional concurrent join by the main thread, final join; executor = InplaceExecutor | "
                        "ThreadPoolExecutor with 1-2 workers | either behind a fault injector whose invoke fails per a PRNG bit-string of 1-8 bits with density 1/4-3/4, "
-                       "refused callers re-signal after 0-2 yields) under one seeded schedule (random with 5 stickiness levels, PCT, or stickiness 0); "
+                       "refused callers re-signal after 0-2 yields; plus the directed modes stall-inline / stall-pool: producer A parked between claiming its index and "
+                       "publishing it (blocking copy assignment of the item) for 1200 virtual ms = at least 1200 consumer polls while producer B publishes and signals behind it and a "
+                       "third thread joins after B's execute returned) under one seeded schedule (random with 5 stickiness levels, PCT, or stickiness 0); "
                        "non-trivial = the trace contains a failed CAS on _events (a producer's signal interfered with the consumer's exit decision or with a roll-back) "
                        "or at least one injected refusal, or the consumer polled empty while an index was handed out but unpublished (the re-poll branch of repair 0c66556); "
                        "distinct by trace hash")
@@ -150,7 +164,7 @@ def replay(ctx, path):
     mode, seed, env = m.group(1), int(m.group(2)), eval(m.group(3))
     exe, log = build_vrt_exe("c16", SRCS, repo_cpp=REPO_CPP)
     drv = ctx.driver("drv_C16")
-    r = ctx.econc(exe, drv, [mode], seed, 1, env=dict(LIMIT, **env))[0]
+    r = ctx.econc(exe, drv, [mode], seed, 1, env=_env(mode, env))[0]
     print("RUN " + " ".join(r["header"]))
     print("\n".join(r["lines"]))
     print("verdict:", r["verdict"], "replay:", r["replay"], "oracle:", r["oracle"])
